@@ -1,6 +1,9 @@
 package mc
 
-import "time"
+import (
+	"time"
+	"unsafe"
+)
 
 // Await blocks the calling thread until pred() is true. pred must read only
 // state that changes under the scheduler.
@@ -43,7 +46,18 @@ func Quiesce() {
 	t.idle = true
 	Point(&Op{Kind: "quiesce", Global: true, Alts: func() int { return 1 }, Do: func(int) {}})
 	t.idle = false
+	HarnessAcquire()
 }
+
+// hsync carries the happens-before edges of the harness's own bookkeeping in the race-oracle build: a
+// script that acts on a call's return or on a server event has, in a real program, learnt about it through
+// some synchronisation (a channel, a WaitGroup). HarnessRelease is announced where the harness publishes
+// such an observation (call returned, server event logged); Quiesce acquires. Library-internal state gets
+// no edge from this: only what the publishing thread did before it published.
+var hsync int
+
+func HarnessRelease() { RaceRelease(unsafe.Pointer(&hsync)) }
+func HarnessAcquire() { RaceAcquire(unsafe.Pointer(&hsync)) }
 
 // Timer is a virtual timer: it fires only when the scenario says so.
 type Timer struct {
